@@ -242,6 +242,9 @@ class LaplacianChannel(BaseChannel):
 
         # Handle complex input
         if torch.is_complex(x):
+            if self.scale is None:
+                # The configured power (or SNR) is the total over real and imaginary parts
+                scale = scale / (2**0.5)
             noise_real = self._get_laplacian_noise(x.real.shape, x.device) * scale
             noise_imag = self._get_laplacian_noise(x.imag.shape, x.device) * scale
             noise = torch.complex(noise_real, noise_imag)
